@@ -19,7 +19,7 @@ func init() {
 			jobs = append(jobs, J("H_C03_fma", o, "d", 0, "p", 5, "alias", 3), J("H_C03_fma", o, "d", 0, "p", 19, "alias", 1))
 			// concrete multiplier mantissas (5000000000000000001, 1234567890123456789): x*y+u is linear in the unknowns,
 			// so ties and carries deep inside the 38-digit product are within the solver's reach
-			jobs = append(jobs, J("H_C03_fma", o, "d", 0, "p", 5, "ypat0", 3), J("H_C03_fma", o, "d", 0, "p", 19, "ypat0", 8))
+			jobs = append(jobs, J("H_C03_fma", o, "d", 0, "p", 5, "ypat0", 3, "erange", 1000), J("H_C03_fma", o, "d", 0, "p", 19, "ypat0", 8, "erange", 1000), J("H_C03_fma", o, "d", 0, "p", 5, "ypat0", 3))
 			// every form-class triple with a non-finite member, fresh receiver and receiver == u
 			for fx := 0; fx <= 2; fx++ {
 				for fy := 0; fy <= 2; fy++ {
@@ -45,7 +45,7 @@ func init() {
 		},
 		Witnesses: []string{"C03.separation"},
 		Bounds: map[string]string{
-			"quick":    "x, y, u one word each (product two words); alignment of u against the product d = 0; p in {19, 5}; receiver fresh, == x, == u; the same with a concrete multiplier mantissa (5000000000000000001 at p=5, 1234567890123456789 at p=19); all 26 form-class triples with a zero or infinity, fresh receiver and receiver == u; all word values, signs, modes, exponents.",
+			"quick":    "x, y, u one word each (product two words); alignment of u against the product d = 0; p in {19, 5}; receiver fresh, == x, == u; the same with a concrete multiplier mantissa (5000000000000000001 at p=5, 1234567890123456789 at p=19; exponents within +-1000, i.e. away from the known finding's region, and unrestricted); all 26 form-class triples with a zero or infinity, fresh receiver and receiver == u; all word values, signs, modes, exponents.",
 			"thorough": "as quick plus d in {5,1,19} with p in {10,19}, receiver == y, dirty receiver, u of two words.",
 		},
 		Outside:     []string{"wider operands", "alignments where u lies below the product's last digit (d < 0): those cells (e.g. d=-19) produce thousands of paths and a few solver timeouts and are not registered", "inputs whose intermediate product x*y leaves the int32 exponent range although x*y+u is representable: known finding KF-fma-product-range (reported as KNOWN-FINDING, every other violation is still reported)"},
